@@ -11,6 +11,8 @@
 #undef _ZN10QByteArray6resizeEi
 #undef _ZN10QByteArray11reallocDataEj6QFlagsIN10QArrayData16AllocationOptionEE
 #undef _ZN10QByteArray6appendEc
+#undef _ZN7QString13toUtf8_helperERKS_
+#undef _ZN7QString15fromUtf8_helperEPKci
 #define XHINT(d) ((d)->f3 == QB_OFF ? ((struct qb*)(d))->hint : (d)->f1)          /* evaluated inside loop conditions */
 #define XBYTES(d) ((d)->f3 == QB_OFF ? (const uint8_t*)BD(d) : (const uint8_t*)((const char*)(d) + (d)->f3))
 static struct qb vp_qb_zero;   /* all-zero template: blocks are initialised by one struct assignment (constants, no loop) */
@@ -42,6 +44,45 @@ char* _ZN10QByteArray6appendEc(char *self, uint8_t c) { QAD *o = *(QAD**)self;
 #define PHINT(p, n) (VP_IS_QB(p) ? ((struct qb*)((char*)(p) - QB_OFF))->hint : (uint32_t)(n))
 static uint32_t vpl_x_strnlen(const uint8_t *p, uint32_t maxlen) { uint32_t n = 0; for (; n < PHINT(p, maxlen) && n < QB_CAP; n++) { if (n >= maxlen) break; if (!p[n]) break; } return n; }
 uint32_t _Z8qstrnlenPKcj(char *s, uint32_t maxlen) { if (!s) return 0; return vpl_x_strnlen((uint8_t*)s, maxlen); }
+/* ---- UTF-8 <-> UTF-16 with byte length != unit length, as a per-instance case split (cdef VP_U8PAT) ----
+   The shared model is the identity on ASCII (length preserving).  With -DVP_U8PAT=<decimal digits, least significant = unit 0> every
+   string of the instance has the SHAPE given by the digits: digit 1 (or 0) = unit in U+0001..U+007F (1 byte), 2 = unit in U+00C0..U+00FF
+   (2 bytes, lead byte C3: "e-acute" is in there), 3 = unit in U+2000..U+2FFF (3 bytes, lead byte E2: the euro sign is in there).  Within a
+   shape all units are symbolic; the byte length of every string is a constant of the instance (lengths are structure).  The codec
+   below is the real UTF-8 mapping restricted to these shapes; text outside the shape is a MODEL failure (inconclusive), never accepted. */
+#ifdef VP_U8PAT
+static uint32_t u8cls(uint32_t i) { uint64_t p = VP_U8PAT; for (uint32_t k = 0; k < 8; k++) { if (k >= i) break; p /= 10; } uint32_t c = (uint32_t)(p % 10); return c < 2 ? 1 : c; }
+#define QS_UNIT(d, i) ((d)->f3 == QS_OFF ? SD(d)[i] : ((const uint16_t*)((const char*)(d) + (d)->f3))[i])
+void _ZN7QString13toUtf8_helperERKS_(char *ret, char *self) { QAD *s = *(QAD**)self; uint32_t n = s->f1; ASSERT(n <= 8, "toUtf8 (shape model): at most 8 units");
+  uint32_t total = 0; for (uint32_t i = 0; i < 8; i++) { if (i >= n) break; total += u8cls(i); }
+  QAD *d = qbv_new(total, total); uint32_t k = 0;
+  for (uint32_t i = 0; i < 8; i++) { if (i >= n) break; uint16_t u = QS_UNIT(s, i); uint32_t c = u8cls(i);
+    if (c == 1) { ASSERT(u >= 1 && u < 0x80, "toUtf8 (shape model): unit outside its shape class 1"); BD(d)[k] = (uint8_t)u; k += 1; }
+    else if (c == 2) { ASSERT((u >> 6) == 3, "toUtf8 (shape model): unit outside its shape class 2"); BD(d)[k] = 0xC3; BD(d)[k + 1] = (uint8_t)(0x80 | (u & 0x3f)); k += 2; }
+    else { ASSERT((u >> 12) == 2, "toUtf8 (shape model): unit outside its shape class 3"); BD(d)[k] = 0xE2; BD(d)[k + 1] = (uint8_t)(0x80 | ((u >> 6) & 0x3f)); BD(d)[k + 2] = (uint8_t)(0x80 | (u & 0x3f)); k += 3; } }
+  *(QAD**)ret = d; }
+void _ZN7QString15fromUtf8_helperEPKci(char *ret, char *p, uint32_t n) { if (!p) { *(QAD**)ret = SHARED_NULL; return; } const uint8_t *b = (const uint8_t*)p; ASSERT((int32_t)n >= 0, "fromUtf8 (shape model): explicit length");
+  QAD *d = qs_new(0, 8); uint32_t k = 0, cnt = 0;       /* k, the byte position of unit j, is a constant: the widths come from the shape */
+  for (uint32_t j = 0; j < 8; j++) { uint32_t c = u8cls(j); if (k >= n) break; ASSERT(k + c <= n, "fromUtf8 (shape model): truncated sequence");
+    if (c == 1) { ASSERT(b[k] < 0x80, "fromUtf8 (shape model): byte outside its shape class 1"); SD(d)[j] = b[k]; }
+    else if (c == 2) { ASSERT(b[k] == 0xC3 && (b[k + 1] & 0xC0) == 0x80, "fromUtf8 (shape model): bytes outside their shape class 2"); SD(d)[j] = (uint16_t)(0x00C0 | (b[k + 1] & 0x3f)); }
+    else { ASSERT(b[k] == 0xE2 && (b[k + 1] & 0xC0) == 0x80 && (b[k + 2] & 0xC0) == 0x80, "fromUtf8 (shape model): bytes outside their shape class 3"); SD(d)[j] = (uint16_t)(0x2000 | ((b[k + 1] & 0x3f) << 6) | (b[k + 2] & 0x3f)); }
+    k += c; cnt = j + 1; }
+  ASSERT(k >= n, "fromUtf8 (shape model): more than 8 units"); d->f1 = cnt; *(QAD**)ret = d; }
+/* harness: a fresh string of exactly len units of the instance's shape */
+void vp_fresh_text(char *out, uint32_t len) { ASSERT(len <= 8, "vp_fresh_text bound"); QAD *d = qs_new(len, len);
+  for (uint32_t i = 0; i < len; i++) { uint32_t c = u8cls(i); uint16_t x = vp_u16();
+    if (c == 1) { ASSUME(x >= 1 && x < 0x80); SD(d)[i] = x; } else if (c == 2) { SD(d)[i] = (uint16_t)(0x00C0 | (x & 0x3f)); } else { SD(d)[i] = (uint16_t)(0x2000 | (x & 0x0fff)); } }
+  *(QAD**)out = d; }
+uint32_t vp_text_bytes(uint32_t len) { uint32_t t = 0; for (uint32_t i = 0; i < 8; i++) { if (i >= len) break; t += u8cls(i); } return t; }
+#else
+void vpcore_QString_toUtf8_helper(char *ret, char *self); void vpcore_QString_fromUtf8_helper(char *ret, char *p, uint32_t n);
+void _ZN7QString13toUtf8_helperERKS_(char *ret, char *self) { vpcore_QString_toUtf8_helper(ret, self); }
+void _ZN7QString15fromUtf8_helperEPKci(char *ret, char *p, uint32_t n) { vpcore_QString_fromUtf8_helper(ret, p, n); }
+void vp_fresh_text(char *out, uint32_t len) { ASSERT(len <= 8, "vp_fresh_text bound"); QAD *d = qs_new(len, len);
+  for (uint32_t i = 0; i < len; i++) { uint8_t c = vp_u8(); ASSUME(c >= 1 && c < 0x80); SD(d)[i] = c; } *(QAD**)out = d; }
+uint32_t vp_text_bytes(uint32_t len) { return len; }
+#endif
 /* ---- logging / formatting ---- */
 void _ZNK7QString3argERKS_i5QChar(char *ret, char *self, char *a, uint32_t w, uint16_t fill) { *(QAD**)ret = qad_ref(*(QAD**)self); }
 void _ZNK14QMessageLogger7warningEPKcz(char *self, char *fmt, ...) { }
